@@ -721,6 +721,7 @@ pub fn run(which: Which, tier: &str, seed: u64, out: &str) {
                 .set("of_which_in_check", tq.3)
                 .set("moves_in_checked_lists", tq.1)
                 .set("node_cap_per_start_state", tq.4)
+                .set("members_of_classes_F1_F4_thorough_F3_with_something_to_examine_used_as_starts", CLASS_STARTS.load(std::sync::atomic::Ordering::Relaxed))
                 .set("nodes_whose_searched_moves_were_judged", EXAMINED_NODES.load(std::sync::atomic::Ordering::Relaxed))
                 .set("quiescence_searches_traced_after_a_main_search_of_the_same_state", AFTER_SEARCH.load(std::sync::atomic::Ordering::Relaxed))
                 .set("quiescence_searches_traced_with_a_game_history_in_which_every_successor_occurred_twice", WITH_HISTORY.load(std::sync::atomic::Ordering::Relaxed))
@@ -828,10 +829,8 @@ fn trace_part(mg: &MoveGenerator, rep: &Report, roots: &[roots::Root], thorough:
     let moves = AtomicU64::new(0);
     let checks = AtomicU64::new(0);
     let exam_nodes = AtomicU64::new(0);
-    crate::par::par_map_init(
-        &starts,
-        || None::<Searcher>,
-        |s, b| {
+    let root_missing = AtomicU64::new(0);
+    let visit = |s: &mut Option<Searcher>, b: &Board, phases: u8| {
             if rep.saturated() {
                 return;
             }
@@ -841,7 +840,7 @@ fn trace_part(mg: &MoveGenerator, rep: &Report, roots: &[roots::Root], thorough:
             // phase 0: quiescence from this state as it is; phase 1: the same after a main search of
             // the state on the same searcher (table, killers and history filled by it): what an
             // earlier search left behind must not change which moves a quiescence node searches
-            for phase in 0..3 {
+            for phase in 0..phases {
             if phase == 2 {
                 if rep.saturated() {
                     return;
@@ -894,6 +893,30 @@ fn trace_part(mg: &MoveGenerator, rep: &Report, roots: &[roots::Root], thorough:
             let events = crate::search::verif::take_quiescence_events();
             crate::search::verif::set_quiescence_trace(false);
             if r.is_ok() {
+                // the start state itself is a quiescence node with the full window: nothing can cut
+                // it off before it looks at its moves. If it has moves to examine (the rules model
+                // says so) and never reached the point where a node chooses its list, it examined none.
+                let root_traced = trace.first().map(|t| eng::key_of(&t.0) == eng::key_of(b)).unwrap_or(false);
+                if !root_traced {
+                    if let Ok(p) = eng::pos_of(b) {
+                        let in_check = p.in_check(p.stm);
+                        let want = if in_check { p.legal_moves() } else { p.tactical_moves() };
+                        if !want.is_empty() {
+                            root_missing.fetch_add(1, Ordering::Relaxed);
+                            rep.violation(
+                                format!("C17 fen={} root-not-expanded", p.fen4()),
+                                format!(
+                                    "quiescence search of {:?} with the full window ({}): the search returned without choosing any move list for this position, i.e. it examined none of [{}]",
+                                    p.fen4(),
+                                    if in_check { "side to move in check: every legal move is to be examined" } else { "not in check: captures, promotions and checks are to be examined" },
+                                    eng::moves_text(&want)
+                                ),
+                                vec!["c17-root-one".to_string(), "--fen".into(), eng::fen_of(b), "--cap".into(), cap.to_string(), "--after-search".into(), phase.to_string()],
+                                J::Null,
+                            );
+                        }
+                    }
+                }
                 // which moves each node really searched (the list above is what it chose)
                 let (judged, problems) = examined_problems(&trace, &events);
                 exam_nodes.fetch_add(judged, Ordering::Relaxed);
@@ -957,11 +980,43 @@ fn trace_part(mg: &MoveGenerator, rep: &Report, roots: &[roots::Root], thorough:
                 }
             }
             }
-        },
-    );
+    };
+    crate::par::par_map_init(&starts, || None::<Searcher>, |s, b| visit(s, b, 3));
+    // complete small-material classes as starts (as they are, no earlier search): endings with a
+    // lone minor piece, promotions with and without capture, castling; a search that decides such
+    // a position without looking at its moves must still look at them
+    let mut class_starts = 0u64;
+    for class in roots::classes(if thorough { "thorough" } else { "quick" }) {
+        if !["F1", "F3", "F4"].contains(&class.name) || (class.name == "F3" && !thorough) || rep.saturated() {
+            continue;
+        }
+        let counts: Vec<u64> = crate::par::par_map_init(
+            &class.units,
+            || None::<Searcher>,
+            |s, u| {
+                let mut n = 0u64;
+                (class.gen)(*u, &mut |p: Pos| {
+                    if !p.in_check(p.stm) && p.tactical_moves().is_empty() {
+                        return; // nothing to examine: nothing to judge
+                    }
+                    if let Some(b) = setup(&p, rep, "C17") {
+                        n += 1;
+                        visit(s, &b, 1);
+                    }
+                });
+                n
+            },
+        );
+        class_starts += counts.iter().sum::<u64>();
+        eprintln!("[C17] quiescence trace from class {}: {} starts ({:.1}s)", class.name, counts.iter().sum::<u64>(), rep.elapsed());
+    }
+    CLASS_STARTS.store(class_starts, Ordering::Relaxed);
     EXAMINED_NODES.store(exam_nodes.load(Ordering::Relaxed), Ordering::Relaxed);
     (nodes.load(Ordering::Relaxed), moves.load(Ordering::Relaxed), starts.len() as u64, checks.load(Ordering::Relaxed), cap)
 }
+
+/// Members of complete material classes used as quiescence trace starts
+pub static CLASS_STARTS: std::sync::atomic::AtomicU64 = std::sync::atomic::AtomicU64::new(0);
 
 /// Quiescence searches traced with a game history in which every successor occurred twice
 pub static WITH_HISTORY: std::sync::atomic::AtomicU64 = std::sync::atomic::AtomicU64::new(0);
@@ -1039,6 +1094,41 @@ pub fn examined_problems(trace: &[(Board, bool, Vec<crate::moves::Move>)], event
         }
     }
     (judged, problems)
+}
+
+/// Replay of "the start state was never expanded": the same traced quiescence search again.
+pub fn replay_root_one(start_fen: &str, cap: u64, phase: u8) -> i32 {
+    use crate::search::Searcher;
+    let p = Pos::from_fen(start_fen).unwrap();
+    let b = eng::board_of(&p).unwrap();
+    crate::timer::verif::set_node_clock(Some(1));
+    let mut s = Searcher::new();
+    if phase == 1 {
+        let _ = guard(|| s.find_best_move(&b, 2, Some(std::time::Duration::from_millis(2500))));
+        crate::timer::verif::set_node_clock(Some(1));
+    }
+    if phase == 2 {
+        let mg = MoveGenerator::new();
+        for m in mg.generate_moves(&b) {
+            let c = b.clone_with_move(&m);
+            s.push_position(&c);
+            s.push_position(&c);
+        }
+    }
+    crate::search::verif::set_quiescence_trace(true);
+    let r = guard(|| s.verif_quiesce(&b, Some(std::time::Duration::from_millis(cap))));
+    let trace = crate::search::verif::take_quiescence_trace();
+    let _ = crate::search::verif::take_quiescence_events();
+    crate::search::verif::set_quiescence_trace(false);
+    let in_check = p.in_check(p.stm);
+    let want = if in_check { p.legal_moves() } else { p.tactical_moves() };
+    let root_traced = trace.first().map(|t| eng::key_of(&t.0) == eng::key_of(&b)).unwrap_or(false);
+    if r.is_ok() && !root_traced && !want.is_empty() {
+        println!("REPLAY-VIOLATION C17 fen={} root-not-expanded :: the quiescence search returned without choosing a move list for its start state", p.fen4());
+        return 1;
+    }
+    println!("REPLAY-OK C17 root of {} expanded", start_fen);
+    0
 }
 
 pub fn replay_exam_one(start_fen: &str, node_fen: &str, cap: u64, phase: u8) -> i32 {
